@@ -64,7 +64,9 @@ class MarkovChain(ABC):
         current_time = start_time
         end_time = start_time + run_time
 
-        while current_time < end_time:
+        # (elapsed time is compared with the budget: a budget below the spacing of
+        # the clock's absolute readings would be rounded away in start_time + run_time)
+        while current_time - start_time < run_time:
             for i in range(update_interval):
                 self.take_step()
             # set the interval such that updates are roughly once per second
